@@ -79,6 +79,9 @@ func main() {
 		names = strings.Split(*funcs, ",")
 	} else {
 		for n, c := range e.contracts {
+			if strings.HasPrefix(n, "type ") {
+				continue
+			}
 			if *prop == "" || contractServes(c, *prop) {
 				names = append(names, n)
 			}
